@@ -63,6 +63,8 @@ var c16Shared = map[string]string{
 	"use3.p": "use(\"lib2.p\")\nif n > 10 {\n  use(\"lib2.p\")\n}\nuse(\"lib2.p\")\n",
 	"use5.p": "use(\"lib2.p\")\nuse(\"lib2.p\")\nfor i = 0; i < 2; i = i + 1 {\n  use(\"lib2.p\")\n}\nuse(\"use3.p\")\nuse(\"lib2.p\")\n",
 	"use6.p": "use(\"lib2.p\")\nuse(\"lib2.p\")\nuse(\"lib2.p\")\nuse(\"lib2.p\")\nuse(\"lib2.p\")\nuse(\"use5.p\")\n",
+	// one zone per point value: the first use of each zone happens inside the concurrent phase
+	"zones.p": c16ZoneScript(),
 	"lib2.p": "add_key(from_lib2, len(\"héllo\"))\nfor i = 0; i < 3; i = i + 1 {\n  add_key(cnt, i)\n}\n",
 	"mix.p":  "xml(doc, \"/a/b\", xb)\nsql_cover(q)\ndefault_time(ts, \"Asia/Tokyo\")\nj = load_json(js)\nadd_key(jl, len(j[\"a\"]))\nl = [1, 2, 3, 4, 5]\nadd_key(sl, l[::-2])\ns = \"\"\nfor e in j[\"a\"] {\n  if e == 2 { continue }\n  s = s + \"x\"\n}\nadd_key(s)\nuppercase(verb)\ntrim(pad)\nurl_decode(u)\ncast(n, \"float\")\nset_tag(host)\nrename(renamed, msg2)\nstrfmt(f, \"%v-%s\", 1, verb)\n",
 }
@@ -89,6 +91,21 @@ var c16ParseSrcs = []string{
 	"w = \"\\U0001F600😀😀😀😀😀😀😀😀 \\u00e9 ok\\n\"\n", "v = '''ñ\\ñ\nñ'ñ'ñññññññ'''\n", "u = \"a\\x41ßßßßßßßßßßßßßßß\\101\"\nt = \"𝄞\\\"𝄞𝄞𝄞𝄞𝄞𝄞\"\n",
 }
 
+func c16ZoneScript() string {
+	zones := []string{"Asia/Tokyo", "Europe/Paris", "America/New_York", "Africa/Cairo", "Australia/Sydney", "Asia/Kolkata", "America/Sao_Paulo", "Pacific/Auckland", "Europe/Moscow", "Asia/Dubai",
+		"+8", "-3:30", "+5:45", "+12:45", "-11", "+14", "UTC", "Asia/Shanghai", "America/Chicago", "Europe/London", "Asia/Seoul", "Africa/Lagos", "America/Denver", "Asia/Bangkok", "Nowhere/Land"}
+	var sb strings.Builder
+	for j, z := range zones {
+		kw := "elif"
+		if j == 0 {
+			kw = "if"
+		}
+		fmt.Fprintf(&sb, "%s n %% %d == %d {\n  default_time(ts, \"%s\")\n} ", kw, len(zones), j, z)
+	}
+	sb.WriteString("\nadd_key(done, n)\n")
+	return sb.String()
+}
+
 func showPt(p *input.Point) string { return showRealPoint(p) }
 
 var raceBlock = regexp.MustCompile(`(?s)WARNING: DATA RACE.*?==================`)
@@ -112,12 +129,28 @@ func (k c16) Run(c *mon.Ctx, workload string, i int64) {
 		c.Violate("shared-set-rejected", fmt.Sprint(errs), nil)
 		return
 	}
-	runnable := []string{"grok.p", "use.p", "mix.p", "lib2.p", "usefail.p", "usefail.p", "use3.p", "use5.p", "use6.p"}
+	runnable := []string{"grok.p", "use.p", "mix.p", "lib2.p", "usefail.p", "usefail.p", "use3.p", "use5.p", "use6.p", "zones.p", "zones.p"}
 	// generated sources for the parsers
 	var genSrcs []string
 	for j := 0; j < 20; j++ {
 		s := gen.NewSyntax(gen.Rand(c.Seed*7919 + i*101 + int64(j)))
 		genSrcs = append(genSrcs, gt.Print(gt.ParenthesizeStmts(s.Program(3, 2, 2)), nil))
+	}
+	// keywords in fresh random letter case (per round): per-spelling lazy work in the lexer
+	kr := gen.Rand(c.Seed*31 + i)
+	for j := 0; j < 12; j++ {
+		text := "IF TRUE {\n  x = NIL\n} ELIF FALSE {\n  y = NULL\n} ELSE {\n  z = 1\n}\nFOR a IN [1] {\n  CONTINUE\n}\nFOR ;; {\n  BREAK\n}\n"
+		for _, w := range []string{"if", "elif", "else", "for", "in", "break", "continue", "true", "false", "nil", "null"} {
+			b := []byte(w)
+			for q := range b {
+				if kr.Intn(2) == 0 {
+					b[q] -= 32
+				}
+			}
+			text = strings.ReplaceAll(text, strings.ToUpper(w)+" ", string(b)+" ")
+			text = strings.ReplaceAll(text, strings.ToUpper(w)+"\n", string(b)+"\n")
+		}
+		genSrcs = append(genSrcs, text)
 	}
 	// sequential outcomes
 	type key struct {
@@ -138,19 +171,32 @@ func (k c16) Run(c *mon.Ctx, workload string, i int64) {
 		return out
 	}
 	nPoints := int64(25)
-	for _, name := range runnable {
-		for ps := int64(0); ps < nPoints; ps++ {
-			seq[key{name, ps}] = seqOutcome(name, ps)
-		}
-	}
 	seqParse := map[string]string{}
 	parseOutcome := func(src string) string {
 		st, err := parser.ParsePipeline("par.p", src)
 		return fmt.Sprintf("%v|%v", st.String(), err)
 	}
-	for _, s := range append(append([]string{}, c16ParseSrcs...), genSrcs...) {
-		seqParse[s] = parseOutcome(s)
+	// The sequential reference is computed AFTER the concurrent phase: whatever
+	// the process initialises lazily on first use (caches of zones, patterns,
+	// spellings, pools) must meet its first uses concurrently.
+	computeReference := func() {
+		for _, name := range runnable {
+			for ps := int64(0); ps < nPoints; ps++ {
+				seq[key{name, ps}] = seqOutcome(name, ps)
+			}
+		}
+		for _, s := range append(append([]string{}, c16ParseSrcs...), genSrcs...) {
+			seqParse[s] = parseOutcome(s)
+		}
 	}
+	type observation struct {
+		parse bool
+		name  string // script name or source text
+		ps    int64
+		got   string
+	}
+	var observedMu sync.Mutex
+	var observed []observation
 
 	var inflight [4]int32 // 0 parse, 1 load-set, 2 run, 3 run-use
 	var pairs sync.Map
@@ -202,6 +248,12 @@ func (k c16) Run(c *mon.Ctx, workload string, i int64) {
 			go func(g int) {
 				defer wg.Done()
 				r := gen.Rand(c.Seed*1_000_003 + i*1009 + int64(g) + int64(sub)*77773)
+				var local []observation // merged after the goroutine's last operation
+				defer func() {
+					observedMu.Lock()
+					observed = append(observed, local...)
+					observedMu.Unlock()
+				}()
 				<-start
 				time.Sleep(time.Duration(r.Intn(200)) * time.Microsecond)
 				for n := 0; n < opsPer; n++ {
@@ -216,9 +268,7 @@ func (k c16) Run(c *mon.Ctx, workload string, i int64) {
 						atomic.AddInt32(&inflight[0], 1)
 						got := parseOutcome(src)
 						atomic.AddInt32(&inflight[0], -1)
-						if got != seqParse[src] {
-							report(bad{"concurrent-parse-differs", fmt.Sprintf("source %q\n  concurrent: %s\n  sequential: %s", src, short(got), short(seqParse[src]))})
-						}
+						local = append(local, observation{true, src, 0, got})
 					case op == 3:
 						note(1)
 						atomic.AddInt32(&inflight[1], 1)
@@ -259,9 +309,7 @@ func (k c16) Run(c *mon.Ctx, workload string, i int64) {
 						got := fmt.Sprintf("panic=%v err=%s point=%s", o.Panic, drive.ErrString(o.Err), showPt(pt))
 						input.PutPoint(pt)
 						atomic.AddInt32(&inflight[kind], -1)
-						if got != seq[key{name, ps}] {
-							report(bad{"concurrent-run-differs", fmt.Sprintf("script %s on point #%d\n  concurrent: %s\n  sequential: %s", name, ps, short(got), short(seq[key{name, ps}]))})
-						}
+						local = append(local, observation{false, name, ps, got})
 					}
 					atomic.AddInt32(&total, 1)
 				}
@@ -270,6 +318,22 @@ func (k c16) Run(c *mon.Ctx, workload string, i int64) {
 		close(start)
 		wg.Wait()
 	}
+	computeReference()
+	seenDiff := map[string]bool{}
+	for _, o := range observed {
+		if o.parse {
+			if want := seqParse[o.name]; o.got != want && !seenDiff["p"+o.name] {
+				seenDiff["p"+o.name] = true
+				report(bad{"concurrent-parse-differs", fmt.Sprintf("source %q\n  concurrent: %s\n  sequential: %s", o.name, short(o.got), short(want))})
+			}
+			continue
+		}
+		if want := seq[key{o.name, o.ps}]; o.got != want && !seenDiff[fmt.Sprint("r", o.name, o.ps)] {
+			seenDiff[fmt.Sprint("r", o.name, o.ps)] = true
+			report(bad{"concurrent-run-differs", fmt.Sprintf("script %s on point #%d\n  concurrent: %s\n  sequential: %s", o.name, o.ps, short(o.got), short(want))})
+		}
+	}
+	c.Count("outcomes_compared_with_the_sequential_reference", len(observed))
 	close(badc)
 	c.Count("differences_beyond_the_first_64", int(dropped))
 	c.Eval(int(total))
